@@ -44,6 +44,12 @@ def versionNum : Val → Nat
   | .struct (.num n :: _) => n
   | _ => 0
 
+def maxTxPerBlock : Nat := 10000
+/-- `MerkleBlock`: header, Transactions, `uint32` hash count (≤ MaxTxPerBlock, slice pre-sized), hashes,
+    flag bytes (≤ MaxTxPerBlock / 8).  Written by the node for SPV peers (stack "spv" = a peer that reads it). -/
+def merkleBlock : Ty :=
+  .struct [header, u32, .list 4 (some maxTxPerBlock) 40 0 hash256, .varBytes (maxTxPerBlock / 8)]
+
 /-- which layout a stack reads for a command (`none`: codec not modelled) -/
 def layoutOfStr (stack cmd : String) : Option Layout :=
   if stack = "dpos" then
@@ -80,6 +86,7 @@ def layoutOfStr (stack cmd : String) : Option Layout :=
       some (.schema (.struct [.fixed 33, u64, .fixed 33, .varBytes maxCipherLength, .varBytes signatureLength]))
     | "tx" => some .tx
     | "block" => some .dposBlock
+    | "merkleblock" => some (.schema merkleBlock)
     | _ => none
 
 /-- offset of the Flags byte in an encoded `filterload` -/
